@@ -8,6 +8,8 @@ package main
 // ndjson traces to VERIF_TRACE.  It decides nothing.
 
 import (
+	"net"
+	"io"
 	"bufio"
 	"encoding/json"
 	"errors"
@@ -69,6 +71,8 @@ func TestVerifC19(t *testing.T) {
 		json.Unmarshal(sc.Bytes(), &raw)
 		w.Begin(s.ID, raw)
 		switch s.Kind {
+		case "relaytcp":
+			runRelayTCP(t, w, &s)
 		case "relay":
 			runRelay(t, w, &s)
 		case "termmon":
@@ -211,6 +215,86 @@ func runRelay(t *testing.T, w *vt.Writer, s *c19Scenario) {
 	}
 }
 
+// relay with a REAL TCP connection as `a` (the SOCKS / ORPort side is always a kernel socket): the pt side produces a
+// burst and then ends (EOF or error) while the peer of `a` has not read anything yet - everything the relay forwarded must
+// still arrive (a close that discards what is queued in the socket, SO_LINGER 0, loses it)
+func runRelayTCP(t *testing.T, w *vt.Writer, s *c19Scenario) {
+	ln, err := net.Listen("tcp", "127.0.0.1:0")
+	if err != nil {
+		t.Fatal(err)
+	}
+	defer ln.Close()
+	acc := make(chan net.Conn, 1)
+	go func() {
+		c, err := ln.Accept()
+		if err == nil {
+			acc <- c
+		}
+	}()
+	a, err := net.Dial("tcp", ln.Addr().String())
+	if err != nil {
+		t.Fatal(err)
+	}
+	peer := <-acc
+	defer peer.Close()
+	lb := wire.NewLink(false, 0)
+	done := make(chan error, 1)
+	go func() { done <- copyLoop(a, lb.A) }()
+	prod, kind := 0, "eof"
+	for _, st := range s.Steps {
+		switch st.A {
+		case "produce":
+			buf := make([]byte, st.N)
+			for i := range buf {
+				buf[i] = prf("B", prod+i)
+			}
+			prod += st.N
+			lb.A.Deliver(buf)
+		case "end":
+			kind = st.K
+			// the relay has taken everything that was produced before the end arrives
+			lb.WaitFor(c19Wait, func(x, _ wire.State) bool { return x.Inbox == 0 && (x.Parked || x.Closed) })
+			if st.K == "eof" {
+				lb.A.DeliverEOF()
+			} else {
+				lb.A.DeliverErr(syscall.ECONNRESET)
+			}
+		}
+	}
+	returned := false
+	select {
+	case <-done:
+		returned = true
+	case <-time.After(c19Wait):
+	}
+	// only now does the peer of `a` start to read
+	peer.SetReadDeadline(time.Now().Add(5 * time.Second))
+	recv, ok := 0, true
+	rerr := ""
+	buf := make([]byte, 65536)
+	for {
+		n, err := peer.Read(buf)
+		for i := 0; i < n; i++ {
+			if buf[i] != prf("B", recv+i) {
+				ok = false
+			}
+		}
+		recv += n
+		if err != nil {
+			if err != io.EOF {
+				rerr = err.Error()
+			}
+			break
+		}
+	}
+	w.Emit(vt.Ev{"event": "TcpRelay", "prod": prod, "recv": recv, "ok": ok, "kind": kind, "returned": returned, "rerr": rerr})
+	if !returned {
+		a.Close()
+		lb.A.Close()
+		<-done
+	}
+}
+
 // ---------------------------------------------------------------- termmon
 
 func monitorBlockedInSelect() bool {
@@ -236,8 +320,15 @@ func runTermMon(t *testing.T, w0 *vt.Writer, s *c19Scenario) {
 	phase := 1
 	var phmu sync.Mutex
 	monDone := make(chan struct{})
+	// a scenario that starts with a "config" step keeps main busy (not waiting) until its "configdone" step
+	cfgDone := make(chan struct{})
+	hasConfig := len(s.Steps) > 0 && s.Steps[0].A == "config"
+	if !hasConfig {
+		close(cfgDone)
+	}
 	go func() { // what main() does
 		defer close(monDone)
+		<-cfgDone
 		sig := m.wait(false)
 		name := "INT"
 		if sig == syscall.SIGTERM {
@@ -297,6 +388,27 @@ func runTermMon(t *testing.T, w0 *vt.Writer, s *c19Scenario) {
 				w.Emit(vt.Ev{"event": "FinishRet", "h": h})
 				inc(-1)
 			}(st.H)
+		case "config":
+			w.Emit(vt.Ev{"event": "Config"})
+		case "configdone":
+			if hasConfig {
+				w.Emit(vt.Ev{"event": "ConfigDone"})
+				select {
+				case <-cfgDone:
+				default:
+					close(cfgDone)
+				}
+			}
+		case "ossig":
+			// a REAL signal, delivered by the kernel and the Go runtime to every channel registered with signal.Notify -
+			// newTermMonitor() registered this monitor's channel
+			sig := syscall.SIGINT
+			if st.S == "TERM" {
+				sig = syscall.SIGTERM
+			}
+			w.Emit(vt.Ev{"event": "OsSig", "s": st.S})
+			_ = syscall.Kill(syscall.Getpid(), sig)
+			time.Sleep(5 * time.Millisecond) // os/signal hands it over (or drops it) asynchronously
 		case "finish":
 			if ch, ok := finish[st.H]; ok {
 				close(ch)
